@@ -2119,4 +2119,538 @@ theorem fire_ignores_cache (a b : Obj ℝ) (h : EqButCache a b) :
     simp [hm]
   rw [(eqButCache_iff _ _).mp hE, hc]
 
+/-! ## Part C — the value-level object of `BppModel/Simplex.lean` is a projection of this model
+
+`Simplex.St` (dimension, method, one constraint flag, parameter values, probabilities) is what C09 /
+C13 build on and what the theorems of `Props/C19.lean` on objects are about.  The member functions
+of `Simplex.lean` on `St` are the projections of the member functions of this file. -/
+
+/-- forget the cache, the ordered values and the per-parameter constraints (all equal to `a`) -/
+noncomputable def toSt (a : Bool) (o : Obj ℝ) : St ℝ := ⟨o.dim, o.method, a, o.θ, o.vProb⟩
+
+def HasConstraint (a : Bool) (o : Obj ℝ) : Prop := ∀ p ∈ o.params, p.incl = a
+
+theorem toSt_fire (a : Bool) (o : Obj ℝ) : toSt a o.fire = Simplex.fire (toSt a o) := by
+  obtain ⟨f1, f2, f3, f4, _, _, _⟩ := fire_fields o
+  have hθ := fire_θ o
+  unfold toSt
+  rw [f2, f3, hθ, f4]
+  unfold Simplex.fire Obj.fireBase
+  by_cases hd : o.dim = 0
+  · simp [hd]
+  · simp only [hd, if_false]
+    match hm : o.method with
+    | 0 => simp [probsOf]
+    | 1 => simp [probsOf]
+    | 2 => simp [probsOf, probsLocal, probsLocalFrom]
+    | 3 => simp [probsOf]
+    | n + 4 => simp [probsOf]
+
+theorem testFrom_full (a : Bool) (req : Nat → Option ℝ) (i : Nat) (ps : List (Param ℝ)) (θ : List ℝ)
+    (hc : ∀ p ∈ ps, p.incl = a) (hl : θ.length = ps.length) (hreq : ∀ k, k < ps.length → req (i + k) = θ[k]?) :
+    testFrom req i ps = θ.all (inConstraint a) := by
+  induction ps generalizing i θ with
+  | nil => cases θ with
+    | nil => rfl
+    | cons _ _ => simp at hl
+  | cons p ps ih =>
+    cases θ with
+    | nil => simp at hl
+    | cons t θ =>
+      have h0 : req i = some t := by simpa using hreq 0 (by simp)
+      simp only [testFrom, h0, List.all_cons, hc p (by simp)]
+      congr 1
+      apply ih (i + 1) θ (fun q hq => hc q (by simp [hq])) (by simpa using hl)
+      intro k hk
+      have := hreq (k + 1) (by simp; omega)
+      simpa [Nat.add_assoc, Nat.add_comm 1 k] using this
+
+theorem changedFrom_full (req : Nat → Option ℝ) (i : Nat) (ps : List (Param ℝ)) (θ : List ℝ)
+    (hl : θ.length = ps.length) (hreq : ∀ k, k < ps.length → req (i + k) = θ[k]?) :
+    changedFrom req i ps = (List.zip (ps.map (·.value)) θ).any (fun (c, v) => !(Scalar.eqb c v)) := by
+  induction ps generalizing i θ with
+  | nil => cases θ with
+    | nil => rfl
+    | cons _ _ => simp at hl
+  | cons p ps ih =>
+    cases θ with
+    | nil => simp at hl
+    | cons t θ =>
+      have h0 : req i = some t := by simpa using hreq 0 (by simp)
+      simp only [changedFrom, h0, List.map_cons, List.zip_cons_cons, List.any_cons]
+      congr 1
+      apply ih (i + 1) θ (by simpa using hl)
+      intro k hk
+      have := hreq (k + 1) (by simp; omega)
+      simpa [Nat.add_assoc, Nat.add_comm 1 k] using this
+
+theorem reqOfList_at (θ : List ℝ) (k : Nat) : reqOfList θ (1 + k) = θ[k]? := by simp [reqOfList]
+
+/-- `matchParametersValues` with one value per parameter -/
+theorem matchReq_refines (a : Bool) (o : Obj ℝ) (θ : List ℝ) (hc : HasConstraint a o)
+    (hl : θ.length = o.params.length) :
+    (o.matchReq (reqOfList θ)).map (toSt a) = Simplex.matchParams (toSt a o) θ := by
+  have ht := testFrom_full a (reqOfList θ) 1 o.params θ hc hl (fun k _ => reqOfList_at θ k)
+  have hch := changedFrom_full (reqOfList θ) 1 o.params θ hl (fun k _ => reqOfList_at θ k)
+  have hw := writeFrom_reqOfList o.params θ hl
+  unfold Obj.matchReq Simplex.matchParams
+  rw [ht]
+  by_cases h1 : θ.all (inConstraint a) = true
+  · have h1' : θ.all (inConstraint (toSt a o).allowNull) = true := h1
+    simp only [h1, h1', if_true]
+    have hch' : (List.zip (toSt a o).params θ).any (fun (c, v) => !(Scalar.eqb c v)) = changedFrom (reqOfList θ) 1 o.params := by
+      rw [hch]; rfl
+    rw [hch']
+    by_cases h2 : changedFrom (reqOfList θ) 1 o.params = true
+    · simp only [h2, if_true, Except.map]
+      rw [toSt_fire]
+      congr 2
+      simp only [toSt, Obj.θ, hw]
+    · simp only [h2, Except.map]
+      rfl
+  · have h1' : ¬ θ.all (inConstraint (toSt a o).allowNull) = true := h1
+    simp only [h1, h1', Except.map]
+    simp
+
+theorem hasConstraint_cacheWrite (a : Bool) (o : Obj ℝ) (p : List ℝ) (hc : HasConstraint a o) :
+    HasConstraint a (o.cacheWrite p) := by
+  unfold HasConstraint; rw [(cacheWrite_fields o p).1]; exact hc
+
+theorem toSt_cacheWrite (a : Bool) (o : Obj ℝ) (p : List ℝ) : toSt a (o.cacheWrite p) = toSt a o := by
+  obtain ⟨c1, c2, c3, c4, _, _⟩ := cacheWrite_fields o p
+  simp only [toSt, Obj.θ, c1, c2, c3, c4]
+
+/-- outcome of a call that returns the object and the exception, as an `Except` -/
+def pairToExcept {β : Type} : β × Option Err → Except Err β
+  | (b, none) => .ok b
+  | (_, some e) => .error e
+
+/-- `Simplex::setFrequencies` -/
+theorem setFrequenciesBase_refines (a : Bool) (o : Obj ℝ) (p : List ℝ) (hc : HasConstraint a o)
+    (hm : ValidMethod o.method) (hl : o.params.length = o.dim - 1) :
+    (pairToExcept (o.setFrequenciesBase p)).map (toSt a) = Simplex.setFrequencies (toSt a o) p := by
+  unfold Simplex.setFrequencies Obj.setFrequenciesBase
+  by_cases hd : o.dim = 0
+  · have : (toSt a o).dim = 0 := hd
+    simp only [hd, this, if_true, pairToExcept, Except.map]
+  · have hd' : ¬ (toSt a o).dim = 0 := hd
+    simp only [hd, hd', if_false]
+    by_cases hs : sumOk p = true
+    · simp only [hs, Bool.not_true, Bool.false_eq_true, if_false]
+      by_cases hlt : p.length < o.dim
+      · have hlt' : p.length < (toSt a o).dim := hlt
+        simp only [hlt, hlt', if_true, pairToExcept, Except.map]
+      · have hlt' : ¬ p.length < (toSt a o).dim := hlt
+        simp only [hlt, hlt', if_false]
+        have hle : o.dim ≤ p.length := by omega
+        have hlen : (paramsOf o.method (p.take o.dim)).length = (o.cacheWrite (p.take o.dim)).params.length := by
+          rw [(cacheWrite_fields o _).1, paramsOf_length _ _ hm, hl]; simp [hle]
+        have hr := matchReq_refines a (o.cacheWrite (p.take o.dim)) _ (hasConstraint_cacheWrite a o _ hc) hlen
+        rw [toSt_cacheWrite] at hr
+        show _ = Simplex.matchParams (toSt a o) (paramsOf o.method (p.take o.dim))
+        rw [← hr]
+        cases (o.cacheWrite (p.take o.dim)).matchReq (reqOfList (paramsOf o.method (p.take o.dim))) with
+        | ok o2 => rfl
+        | error e => rfl
+    · have hs' : sumOk p = false := by simpa using hs
+      simp only [hs', Bool.not_false, if_true, pairToExcept, Except.map]
+
+/-- `setParameterValue` -/
+theorem setOne_refines (a : Bool) (o : Obj ℝ) (i : Nat) (v : ℝ) (hc : HasConstraint a o) :
+    (o.setOne i v).map (toSt a) = Simplex.setOne (toSt a o) i v := by
+  unfold Simplex.setOne Obj.setOne
+  have hlenθ : (toSt a o).params.length = o.params.length := by simp [toSt, Obj.θ]
+  by_cases hnf : i = 0 ∨ o.params.length < i
+  · have hnf' : i = 0 ∨ (toSt a o).params.length < i := by rw [hlenθ]; exact hnf
+    have hp : o.param? i = none := by
+      unfold Obj.param?
+      rcases hnf with h0 | hlt
+      · simp [h0]
+      · have : ¬ i = 0 := by omega
+        simp only [this, if_false]
+        exact List.getElem?_eq_none (by omega)
+    simp only [hp, hnf', if_true, Except.map]
+  · have hnf' : ¬ (i = 0 ∨ (toSt a o).params.length < i) := by rw [hlenθ]; exact hnf
+    have hi : ¬ i = 0 := fun h => hnf (Or.inl h)
+    have hlt : i - 1 < o.params.length := by omega
+    have hp : o.param? i = some o.params[i - 1] := by
+      unfold Obj.param?
+      simp only [hi, if_false]
+      exact List.getElem?_eq_getElem hlt
+    have hcur : (toSt a o).params.getD (i - 1) default = (o.params[i - 1]).value := by
+      simp [toSt, Obj.θ, List.getD_eq_getElem?_getD, hlt]
+    have hincl : (o.params[i - 1]).incl = a := hc _ (List.getElem_mem hlt)
+    simp only [hp, hnf', if_false, hcur, hincl]
+    have ha : (toSt a o).allowNull = a := rfl
+    rw [ha]
+    by_cases hg : Scalar.gtb (Scalar.abs (v - (o.params[i - 1]).value)) Scalar.zero = true
+    · simp only [hg, if_true]
+      by_cases hcn : inConstraint a v = true
+      · simp only [hcn, if_true, Except.map]
+        rw [toSt_fire]
+        congr 2
+        simp [toSt, Obj.θ, List.map_set]
+      · simp only [hcn, Except.map]
+        simp
+    · simp only [hg, Except.map]
+      simp only [Bool.false_eq_true, if_false]
+      rw [toSt_fire]
+
+theorem newParams_refines (a : Bool) (vals : List ℝ) :
+    (newParams a vals).map (fun ps => ps.map (·.value)) = vals.mapM (mkParam a) := by
+  unfold newParams
+  induction vals with
+  | nil => rfl
+  | cons v r ih =>
+    rw [List.mapM_cons, List.mapM_cons]
+    unfold mkParam at ih ⊢
+    by_cases hcn : inConstraint a v = true
+    · simp only [hcn, if_true, bind, Except.bind]
+      rw [← ih]
+      cases List.mapM (fun v => if inConstraint a v = true then Except.ok (⟨v, a⟩ : Param ℝ) else Except.error Err.constraint) r with
+      | ok ps => rfl
+      | error e => rfl
+    · simp only [hcn, Except.map, bind, Except.bind]
+      rfl
+
+theorem newParams_incl (a : Bool) (vals : List ℝ) (ps : List (Param ℝ)) (e : newParams a vals = .ok ps) :
+    ∀ q ∈ ps, q.incl = a := by
+  unfold newParams at e
+  induction vals generalizing ps with
+  | nil => simp [List.mapM_nil, pure, Except.pure] at e; subst e; intro q hq; cases hq
+  | cons v r ih =>
+    rw [List.mapM_cons] at e
+    by_cases hcn : inConstraint a v = true
+    · simp only [hcn, if_true, bind, Except.bind] at e
+      cases hr : List.mapM (fun v => if inConstraint a v = true then Except.ok (⟨v, a⟩ : Param ℝ) else Except.error Err.constraint) r with
+      | error err => rw [hr] at e; cases e
+      | ok qs =>
+        rw [hr] at e
+        simp only [pure, Except.pure, Except.ok.injEq] at e
+        subst e
+        intro q hq
+        rcases List.mem_cons.mp hq with rfl | hq
+        · rfl
+        · exact ih qs hr q hq
+    · simp only [hcn, bind, Except.bind] at e
+      cases e
+
+/-- `Simplex(const std::vector<double>&, method, allowNull)` -/
+theorem construct_refines (p : List ℝ) (m : Nat) (a : Bool) :
+    (SimplexObj.construct p m a).map (toSt a) = Simplex.construct p m a := by
+  unfold SimplexObj.construct Simplex.construct
+  by_cases h0 : p.length = 0
+  · simp only [h0, if_true, Except.map]; rfl
+  · simp only [h0, if_false]
+    by_cases hs : sumOk p = true
+    · simp only [hs, Bool.not_true, Bool.false_eq_true, if_false]
+      rw [← newParams_refines a (paramsOf m p)]
+      cases newParams a (paramsOf m p) with
+      | ok ps => rfl
+      | error e => rfl
+    · have hs' : sumOk p = false := by simpa using hs
+      simp only [hs', Bool.not_false, if_true, Except.map]
+
+theorem newParams_values (a : Bool) (vals : List ℝ) (ps : List (Param ℝ)) (e : newParams a vals = .ok ps) :
+    ps.map (·.value) = vals := by
+  unfold newParams at e
+  induction vals generalizing ps with
+  | nil => simp [List.mapM_nil, pure, Except.pure] at e; subst e; rfl
+  | cons v r ih =>
+    rw [List.mapM_cons] at e
+    by_cases hcn : inConstraint a v = true
+    · simp only [hcn, if_true, bind, Except.bind] at e
+      cases hr : List.mapM (fun v => if inConstraint a v = true then Except.ok (⟨v, a⟩ : Param ℝ) else Except.error Err.constraint) r with
+      | error err => rw [hr] at e; cases e
+      | ok qs =>
+        rw [hr] at e
+        simp only [pure, Except.pure, Except.ok.injEq] at e
+        subst e
+        simp [ih qs hr]
+    · simp only [hcn, bind, Except.bind] at e
+      cases e
+
+theorem pairToExcept_match (r : Obj ℝ × Option Err) :
+    (match r with
+      | (o, none) => (Except.ok o : Except Err (Obj ℝ))
+      | (_, some e) => Except.error e) = pairToExcept r := by
+  obtain ⟨o, e⟩ := r
+  cases e <;> rfl
+
+/-- `Simplex(size_t dim, method, allowNull)` -/
+theorem constructDim_refines (dim m : Nat) (a : Bool) :
+    (SimplexObj.constructDim (α := ℝ) dim m a).map (toSt a) = Simplex.constructDim dim m a := by
+  unfold SimplexObj.constructDim Simplex.constructDim
+  by_cases h0 : dim = 0
+  · simp only [h0, if_true, Except.map]; rfl
+  · simp only [h0, if_false]
+    match m with
+    | 0 => rfl
+    | 1 =>
+      simp only
+      rw [← newParams_refines a]
+      cases newParams a (paramsGlobal (List.replicate dim ((Scalar.one : ℝ) / Scalar.ofInt (dim : Int))) Scalar.one) with
+      | ok ps => rfl
+      | error e => rfl
+    | 2 =>
+      simp only
+      rw [← newParams_refines a]
+      cases newParams a (List.replicate (dim - 1) (Scalar.ofRat 1 2 : ℝ)) with
+      | ok ps => rfl
+      | error e => rfl
+    | 3 =>
+      simp only
+      rw [← newParams_refines a]
+      cases hn : newParams a (List.replicate (dim - 1) (Scalar.ofRat 1 2 : ℝ)) with
+      | error e => rfl
+      | ok ps =>
+        simp only [bind, Except.bind, Except.map]
+        have hv := newParams_values a _ ps hn
+        have hc : HasConstraint a ⟨ps, dim, 3, List.replicate dim (Scalar.one / Scalar.ofInt (dim : Int)), [], none⟩ :=
+          newParams_incl a _ ps hn
+        have hlen : ps.length = dim - 1 := by
+          have := congrArg List.length hv
+          simpa using this
+        have hr := setFrequenciesBase_refines a
+          ⟨ps, dim, 3, List.replicate dim (Scalar.one / Scalar.ofInt (dim : Int)), [], none⟩
+          (List.replicate dim (Scalar.one / Scalar.ofInt (dim : Int))) hc (Or.inr (Or.inr rfl)) hlen
+        have hst : toSt a ⟨ps, dim, 3, List.replicate dim (Scalar.one / Scalar.ofInt (dim : Int)), [], none⟩ =
+            ⟨dim, 3, a, List.map (fun x => x.value) ps, List.replicate dim (Scalar.one / Scalar.ofInt (dim : Int))⟩ := rfl
+        rw [hst] at hr
+        rw [← hr]
+        cases Obj.setFrequenciesBase (⟨ps, dim, 3, List.replicate dim (Scalar.one / Scalar.ofInt (dim : Int)), [], none⟩ : Obj ℝ)
+            (List.replicate dim (Scalar.one / Scalar.ofInt (dim : Int))) with
+        | mk o' err => cases err <;> rfl
+    | n + 4 => rfl
+
+/-! ### ordered objects: `Simplex.OSt` -/
+
+/-- an ordered object of this model projects to `⟨toSt a o, values⟩` -/
+def ProjO (a : Bool) (o : Obj ℝ) (s : OSt ℝ) : Prop := s.base = toSt a o ∧ o.vValues = some s.values
+
+theorem fire_values_of_some (o : Obj ℝ) (w : List ℝ) (hw : o.vValues = some w) :
+    o.fire.vValues = some (orderedValues o.fire.vProb 1) := by
+  obtain ⟨_, _, _, _, _, f6, f7⟩ := fire_fields o
+  cases hv : o.fire.vValues with
+  | none => rw [hv, hw] at f6; simp at f6
+  | some v => rw [f7 v hv]
+
+theorem projO_fire (a : Bool) (o : Obj ℝ) (w : List ℝ) (hw : o.vValues = some w) :
+    ProjO a o.fire (oRefresh (Simplex.fire (toSt a o))) := by
+  refine ⟨by rw [toSt_fire]; rfl, ?_⟩
+  rw [fire_values_of_some o w hw]
+  have : (oRefresh (Simplex.fire (toSt a o))).values = orderedValues (Simplex.fire (toSt a o)).probs 1 := rfl
+  rw [this, ← toSt_fire]
+  rfl
+
+/-- `matchParametersValues` on an ordered object -/
+theorem oMatchReq_refines (a : Bool) (o : Obj ℝ) (w : List ℝ) (θ : List ℝ) (hc : HasConstraint a o)
+    (hl : θ.length = o.params.length) (hw : o.vValues = some w) :
+    (∀ o', o.matchReq (reqOfList θ) = .ok o' → ∃ s', oMatchParams ⟨toSt a o, w⟩ θ = .ok s' ∧ ProjO a o' s') ∧
+    (∀ e, o.matchReq (reqOfList θ) = .error e → oMatchParams ⟨toSt a o, w⟩ θ = .error e) := by
+  have hr := matchReq_refines a o θ hc hl
+  have hch := changedFrom_full (reqOfList θ) 1 o.params θ hl (fun k _ => reqOfList_at θ k)
+  have hch' : (List.zip (toSt a o).params θ).any (fun (c, v) => !(Scalar.eqb c v)) =
+      changedFrom (reqOfList θ) 1 o.params := by rw [hch]; rfl
+  constructor
+  · intro o' e
+    rw [e] at hr
+    have hm : Simplex.matchParams (toSt a o) θ = .ok (toSt a o') := hr.symm
+    unfold oMatchParams
+    simp only [hm, bind, Except.bind, hch']
+    unfold Obj.matchReq at e
+    by_cases ht : testFrom (reqOfList θ) 1 o.params = true
+    · simp only [ht, if_true] at e
+      by_cases hc2 : changedFrom (reqOfList θ) 1 o.params = true
+      · simp only [hc2, if_true, Except.ok.injEq] at e ⊢
+        subst e
+        refine ⟨_, rfl, rfl, ?_⟩
+        rw [fire_values_of_some { o with params := writeFrom (reqOfList θ) 1 o.params } w hw]
+        rfl
+      · simp only [hc2, Except.ok.injEq] at e ⊢
+        simp only [Bool.false_eq_true, if_false] at e ⊢
+        cases e
+        exact ⟨_, rfl, rfl, hw⟩
+    · simp [ht] at e
+  · intro err e
+    rw [e] at hr
+    have hm : Simplex.matchParams (toSt a o) θ = .error err := hr.symm
+    unfold oMatchParams
+    simp only [hm, bind, Except.bind]
+
+/-- `setParameterValue` on an ordered object -/
+theorem oSetOne_refines (a : Bool) (o : Obj ℝ) (w : List ℝ) (i : Nat) (v : ℝ) (hc : HasConstraint a o)
+    (hw : o.vValues = some w) :
+    (∀ o', o.setOne i v = .ok o' → ∃ s', Simplex.oSetOne ⟨toSt a o, w⟩ i v = .ok s' ∧ ProjO a o' s') ∧
+    (∀ e, o.setOne i v = .error e → Simplex.oSetOne ⟨toSt a o, w⟩ i v = .error e) := by
+  have hr := setOne_refines a o i v hc
+  constructor
+  · intro o' e
+    rw [e] at hr
+    have hm : Simplex.setOne (toSt a o) i v = .ok (toSt a o') := hr.symm
+    unfold Simplex.oSetOne
+    simp only [hm, bind, Except.bind]
+    refine ⟨_, rfl, rfl, ?_⟩
+    -- the result of `setOne` is always a notified object
+    unfold Obj.setOne at e
+    cases hp : o.param? i with
+    | none => simp [hp] at e
+    | some q =>
+      simp only [hp] at e
+      split at e
+      · split at e
+        · cases e
+          rw [fire_values_of_some { o with params := o.params.set (i - 1) { q with value := v } } w hw]; rfl
+        · cases e
+      · cases e
+        rw [fire_values_of_some o w hw]; rfl
+  · intro err e
+    rw [e] at hr
+    have hm : Simplex.setOne (toSt a o) i v = .error err := hr.symm
+    unfold Simplex.oSetOne
+    simp only [hm, bind, Except.bind]
+
+/-- `OrderedSimplex::setFrequencies` -/
+theorem oSetFrequencies_refines (a : Bool) (o : Obj ℝ) (w : List ℝ) (v : List ℝ) (hc : HasConstraint a o)
+    (hm : ValidMethod o.method) (hl : o.params.length = o.dim - 1) (hw : o.vValues = some w) :
+    (∀ o', o.oSetFrequencies v = (o', none) →
+      ∃ s', Simplex.oSetFrequencies ⟨toSt a o, w⟩ v = .ok s' ∧ ProjO a o' s') ∧
+    (∀ o' e, o.oSetFrequencies v = (o', some e) → Simplex.oSetFrequencies ⟨toSt a o, w⟩ v = .error e) := by
+  have hr := setFrequenciesBase_refines a o (orderedToProbs v 1) hc hm hl
+  unfold Obj.oSetFrequencies Simplex.oSetFrequencies
+  by_cases h0 : v.length = 0
+  · simp only [h0, if_true]
+    exact ⟨fun o' e => (by cases e; exact ⟨_, rfl, rfl, hw⟩), fun o' e' e => (by cases e)⟩
+  · simp only [h0, if_false]
+    by_cases h1 : v.length ≠ o.dim
+    · have h1' : v.length ≠ (toSt a o).dim := h1
+      simp only [h1, h1', ne_eq, not_false_eq_true, if_true]
+      exact ⟨fun o' e => (by cases e), fun o' e' e => (by cases e; rfl)⟩
+    · have h1' : ¬ v.length ≠ (toSt a o).dim := h1
+      simp only [h1, h1', if_false]
+      cases hb : o.setFrequenciesBase (orderedToProbs v 1) with
+      | mk ob err =>
+        rw [hb] at hr
+        cases err with
+        | none =>
+          have hm' : Simplex.setFrequencies (toSt a o) (orderedToProbs v 1) = .ok (toSt a ob) := hr.symm
+          simp only [hm', bind, Except.bind]
+          exact ⟨fun o' e => (by cases e; exact ⟨_, rfl, rfl, rfl⟩), fun o' e' e => (by cases e)⟩
+        | some e0 =>
+          have hm' : Simplex.setFrequencies (toSt a o) (orderedToProbs v 1) = .error e0 := hr.symm
+          simp only [hm', bind, Except.bind]
+          exact ⟨fun o' e => (by cases e), fun o' e' e => (by cases e; rfl)⟩
+
+theorem constructDim_shape (dim m : Nat) (a : Bool) (hm : ValidMethod m) (b : Obj ℝ)
+    (e : SimplexObj.constructDim dim m a = .ok b) :
+    b.method = m ∧ b.dim = dim ∧ HasConstraint a b ∧ b.params.length = dim - 1 ∧ b.vValues = none := by
+  unfold SimplexObj.constructDim at e
+  by_cases h0 : dim = 0
+  · simp only [h0, if_true, Except.ok.injEq] at e
+    subst e; subst h0
+    exact ⟨rfl, rfl, fun p hp => (by cases hp), rfl, rfl⟩
+  · simp only [h0, if_false] at e
+    rcases hm with rfl | rfl | rfl
+    · simp only [bind, Except.bind] at e
+      cases hn : newParams a (paramsGlobal (List.replicate dim ((Scalar.one : ℝ) / Scalar.ofInt (dim : Int))) Scalar.one) with
+      | error err => rw [hn] at e; cases e
+      | ok ps =>
+        rw [hn] at e
+        simp only [Except.ok.injEq] at e
+        subst e
+        have hv := congrArg List.length (newParams_values a _ ps hn)
+        refine ⟨rfl, rfl, newParams_incl a _ ps hn, ?_, rfl⟩
+        simpa [paramsGlobal_length] using hv
+    · simp only [bind, Except.bind] at e
+      cases hn : newParams a (List.replicate (dim - 1) (Scalar.ofRat 1 2 : ℝ)) with
+      | error err => rw [hn] at e; cases e
+      | ok ps =>
+        rw [hn] at e
+        simp only [Except.ok.injEq] at e
+        subst e
+        have hv := congrArg List.length (newParams_values a _ ps hn)
+        refine ⟨rfl, rfl, newParams_incl a _ ps hn, ?_, rfl⟩
+        simpa using hv
+    · simp only [bind, Except.bind] at e
+      cases hn : newParams a (List.replicate (dim - 1) (Scalar.ofRat 1 2 : ℝ)) with
+      | error err => rw [hn] at e; cases e
+      | ok ps =>
+        rw [hn] at e
+        simp only at e
+        have hv := congrArg List.length (newParams_values a _ ps hn)
+        have hsame := setFrequenciesBase_same
+          (⟨ps, dim, 3, List.replicate dim ((Scalar.one : ℝ) / Scalar.ofInt (dim : Int)), [], none⟩ : Obj ℝ)
+          (List.replicate dim ((Scalar.one : ℝ) / Scalar.ofInt (dim : Int)))
+        cases hb : Obj.setFrequenciesBase
+          (⟨ps, dim, 3, List.replicate dim ((Scalar.one : ℝ) / Scalar.ofInt (dim : Int)), [], none⟩ : Obj ℝ)
+          (List.replicate dim ((Scalar.one : ℝ) / Scalar.ofInt (dim : Int))) with
+        | mk ob err =>
+          rw [hb] at e hsame
+          cases err with
+          | some e0 => cases e
+          | none =>
+            simp only [Except.ok.injEq] at e
+            subst e
+            refine ⟨hsame.method, hsame.dim, ?_, ?_, ?_⟩
+            · intro q hq
+              have h1 : q.incl ∈ ob.params.map (·.incl) := List.mem_map.mpr ⟨q, hq, rfl⟩
+              rw [hsame.incl] at h1
+              obtain ⟨q', hq', e'⟩ := List.mem_map.mp h1
+              rw [← e']; exact newParams_incl a _ ps hn q' hq'
+            · rw [hsame.len]; simpa using hv
+            · have := hsame.cls
+              cases hv' : ob.vValues with
+              | none => rfl
+              | some w => rw [hv'] at this; simp at this
+
+/-- `OrderedSimplex(size_t dim, method, allowNull)` -/
+theorem oConstructDim_refines (dim m : Nat) (a : Bool) :
+    (∀ o, SimplexObj.oConstructDim (α := ℝ) dim m a = .ok o →
+      ∃ s, Simplex.oConstructDim dim m a = .ok s ∧ ProjO a o s) ∧
+    (∀ e, SimplexObj.oConstructDim (α := ℝ) dim m a = .error e → Simplex.oConstructDim (α := ℝ) dim m a = .error e) := by
+  have hr := constructDim_refines dim m a
+  unfold SimplexObj.oConstructDim Simplex.oConstructDim
+  cases hb : SimplexObj.constructDim (α := ℝ) dim m a with
+  | ok b =>
+    rw [hb] at hr
+    have hm' : Simplex.constructDim dim m a = .ok (toSt a b) := hr.symm
+    simp only [hm', bind, Except.bind]
+    exact ⟨fun o e => (by cases e; exact ⟨_, rfl, rfl, rfl⟩), fun e e' => (by cases e')⟩
+  | error e0 =>
+    rw [hb] at hr
+    have hm' : Simplex.constructDim (α := ℝ) dim m a = .error e0 := hr.symm
+    simp only [hm', bind, Except.bind]
+    exact ⟨fun o e => (by cases e), fun e e' => (by cases e'; rfl)⟩
+
+/-- `OrderedSimplex(const std::vector<double>&, method, allowNull)` -/
+theorem oConstruct_refines (v : List ℝ) (m : Nat) (a : Bool) (hm : ValidMethod m) :
+    (∀ o, SimplexObj.oConstruct v m a = .ok o → ∃ s, Simplex.oConstruct v m a = .ok s ∧ ProjO a o s) ∧
+    (∀ e, SimplexObj.oConstruct v m a = .error e → Simplex.oConstruct v m a = .error e) := by
+  have hr := constructDim_refines v.length m a
+  unfold SimplexObj.oConstruct Simplex.oConstruct
+  cases hb : SimplexObj.constructDim (α := ℝ) v.length m a with
+  | error e0 =>
+    rw [hb] at hr
+    have hm' : Simplex.constructDim (α := ℝ) v.length m a = .error e0 := hr.symm
+    simp only [hm', bind, Except.bind]
+    exact ⟨fun o e => (by cases e), fun e e' => (by cases e'; rfl)⟩
+  | ok b =>
+    rw [hb] at hr
+    have hm' : Simplex.constructDim v.length m a = .ok (toSt a b) := hr.symm
+    simp only [hm', bind, Except.bind]
+    obtain ⟨s1, s2, s3, s4, _⟩ := constructDim_shape v.length m a hm b hb
+    have hst : toSt a { b with vValues := some v } = toSt a b := rfl
+    obtain ⟨r1, r2⟩ := oSetFrequencies_refines a { b with vValues := some v } v v s3 (by rw [s1]; exact hm)
+      (by rw [s2]; exact s4) rfl
+    rw [hst] at r1 r2
+    cases hs : Obj.oSetFrequencies { b with vValues := some v } v with
+    | mk o' err =>
+      cases err with
+      | none =>
+        obtain ⟨s', e1, e2⟩ := r1 o' hs
+        exact ⟨fun o e => (by cases e; exact ⟨s', e1, e2⟩), fun e e' => (by cases e')⟩
+      | some e0 =>
+        have := r2 o' e0 hs
+        exact ⟨fun o e => (by cases e), fun e e' => (by cases e'; exact this)⟩
+
 end Bpp.SimplexObj
